@@ -217,7 +217,11 @@ pub fn record(args: &Args) {
             let events = Events::new();
             let wsamp = Duration::from_secs((ks - 1) * DELTA + DELTA / 2);
             let wprune = Duration::from_secs((kp - 1) * DELTA + DELTA / 2);
-            let pruner = VPruner::start(&daser, store.clone(), bs.clone(), &events, Duration::from_millis(50), wprune, wsamp);
+            // block_time is the pruner's idle sleep AND the period after which it recomputes its cached window
+            // edges (measured on the real clock): every other run uses 1 ms, so that the cached edges are reused as
+            // hints (C36 fast path) after the first removals; the others keep the first computation for the whole run
+            let block_time = if run % 2 == 0 { Duration::from_millis(1) } else { Duration::from_millis(50) };
+            let pruner = VPruner::start(&daser, store.clone(), bs.clone(), &events, block_time, wprune, wsamp);
             let (mut n_removed, mut n_refused, mut n_granted) = (0u64, 0u64, 0u64);
             let mut idle = 0;
             for _step in 0..4000 {
@@ -265,6 +269,10 @@ pub fn record(args: &Args) {
                     idle = 0;
                 } else {
                     idle += 1;
+                    if idle == 20 && run % 2 == 0 {
+                        // let the real clock pass the refresh period at least once after the last removal
+                        std::thread::sleep(Duration::from_millis(2));
+                    }
                     if idle > 60 {
                         break;
                     }
